@@ -467,7 +467,7 @@ def register_numpy():
 
     @normalize_token.register(np.memmap)
     def normalize_mmap(mm):
-        return hash_buffer_hex(np.ascontiguousarray(mm))
+        return hash_buffer_hex(np.ascontiguousarray(mm)), mm.dtype, mm.shape
 
     @normalize_token.register(np.ufunc)
     def normalize_ufunc(func):
